@@ -356,6 +356,61 @@ theorem truncQ_whole (q : Rat) (h : q.den = 1) : truncQ q = q.num ∧ ((q.num : 
   rw [h]
   simp
 
+/-- finite and not an integer -/
+def fracF : Flt → Bool
+  | .fin q => q.den != 1
+  | _ => false
+
+/-- a float (Python or numpy) that is finite and not whole: what `int(x)` alters -/
+def fracFloatLeaf : PyVal → Bool
+  | .float f => fracF f
+  | .npFloat f => fracF f
+  | _ => false
+
+theorem truncQ_changed_iff (q : Rat) : (((truncQ q : Int) : Rat) ≠ q) ↔ q.den ≠ 1 := by
+  constructor
+  · intro h hd
+    obtain ⟨ht, hc⟩ := truncQ_whole q hd
+    exact h (by rw [ht]; exact hc)
+  · intro hd he
+    apply hd
+    rw [← he]
+    simp
+
+theorem leafChanged_eq (l : PyVal) : leafChanged l = fracFloatLeaf l := by
+  have key : ∀ q : Rat, decide (((truncQ q : Int) : Rat) ≠ q) = (q.den != 1) := by
+    intro q
+    rw [Bool.eq_iff_iff]
+    simp only [decide_eq_true_eq, truncQ_changed_iff, bne_iff_ne, ne_eq]
+  cases l with
+  | float f => cases f <;> simp [leafChanged, fracFloatLeaf, fracF, key]
+  | npFloat f => cases f <;> simp [leafChanged, fracFloatLeaf, fracF, key]
+  | _ => rfl
+
+mutual
+/-- the cast changed the value iff some leaf is a fractional float -/
+theorem castChanged_eq : ∀ (v : PyVal), castChanged v = (leaves v).any fracFloatLeaf
+  | .list l => by rw [castChanged, leaves]; exact castChangedL_eq l
+  | .tuple l => by rw [castChanged, leaves]; exact castChangedL_eq l
+  | .none => by simp [castChanged, leaves, leafChanged_eq]
+  | .bool _ => by simp [castChanged, leaves, leafChanged_eq]
+  | .int _ => by simp [castChanged, leaves, leafChanged_eq]
+  | .float _ => by simp [castChanged, leaves, leafChanged_eq]
+  | .str _ => by simp [castChanged, leaves, leafChanged_eq]
+  | .set _ => by simp [castChanged, leaves, leafChanged_eq]
+  | .dict _ => by simp [castChanged, leaves, leafChanged_eq]
+  | .ndarray _ _ _ => by simp [castChanged, leaves, leafChanged_eq]
+  | .npInt _ => by simp [castChanged, leaves, leafChanged_eq]
+  | .npFloat _ => by simp [castChanged, leaves, leafChanged_eq]
+  | .agent _ _ => by simp [castChanged, leaves, leafChanged_eq]
+theorem castChangedL_eq : ∀ (l : List PyVal), castChangedL l = (leavesL l).any fracFloatLeaf
+  | [] => rfl
+  | v :: vs => by
+    have h1 := castChanged_eq v
+    have h2 := castChangedL_eq vs
+    rw [castChangedL, leavesL, List.any_append, h1, h2]
+end
+
 theorem fracF_false_iff (f : Flt) : fracF f = false ↔ ∀ q, f = .fin q → q.den = 1 := by
   cases f with
   | fin q => simp [fracF]
@@ -363,7 +418,7 @@ theorem fracF_false_iff (f : Flt) : fracF f = false ↔ ∀ q, f = .fin q → q.
   | pinf => simp [fracF]
   | ninf => simp [fracF]
 
-/-- leaf by leaf: outside K2 (no fractional float offered to an integer dtype) the conversion
+/-- leaf by leaf: when no fractional float is offered to an integer dtype the conversion
 succeeds with an in-bounds element exactly when the leaf denotes an in-bounds number -/
 theorem leaf_den_iff (b : BoxSp) (l : PyVal) (h : b.isInt = true → fracFloatLeaf l = false) :
     (leafOk b.isInt l = true ∧ inBounds b (leafVal b.isInt l) = true) ↔
@@ -414,7 +469,7 @@ theorem leaf_den_iff (b : BoxSp) (l : PyVal) (h : b.isInt = true → fracFloatLe
 theorem boxContains_via (b : BoxSp) (v : PyVal) (hv : ViaAsarray v) :
     boxContains b v =
       (match asArr b.isInt v with
-       | .ok sh vals => boxTest b (boxDT b) sh vals
+       | .ok sh vals => if b.isInt && castChanged v then .no else boxTest b (boxDT b) sh vals
        | .raises => .raises
        | .unmodelled => .unmodelled) := by
   obtain ⟨h1, h2, h3⟩ := hv
@@ -427,27 +482,41 @@ theorem boxContains_via (b : BoxSp) (v : PyVal) (hv : ViaAsarray v) :
 theorem canCast_boxDT (b : BoxSp) : canCast (boxDT b) b.isInt = true := by
   cases h : b.isInt <;> simp [canCast, boxDT, h]
 
-/-- outside K2 no leaf of a value that goes through `np.asarray(…, dtype=int)` is a fractional float -/
-theorem k2_noFrac (b : BoxSp) (v : PyVal) (h : k2Exc b v = false) (hv : ViaAsarray v)
-    (hI : b.isInt = true) : ∀ l ∈ leaves v, fracFloatLeaf l = false := by
-  obtain ⟨h1, h2, h3⟩ := hv
-  have hany : ∀ (w : PyVal), (leaves w).any fracFloatLeaf = false → ∀ l ∈ leaves w, fracFloatLeaf l = false := by
-    intro w hw l hl
-    exact (List.any_eq_false.mp hw) l hl |> (by simpa using ·)
-  cases v with
-  | int i => exact absurd rfl (h1 _)
-  | float f => exact absurd rfl (h2 _)
-  | ndarray dt sh xs => exact absurd rfl (h3 _ _ _)
-  | list l => exact hany _ (by simpa [k2Exc, hI] using h)
-  | tuple l => exact hany _ (by simpa [k2Exc, hI] using h)
-  | npFloat f => exact hany _ (by simpa [k2Exc, hI] using h)
-  | none => intro l hl; simp [leaves] at hl; subst hl; rfl
-  | bool _ => intro l hl; simp [leaves] at hl; subst hl; rfl
-  | str _ => intro l hl; simp [leaves] at hl; subst hl; rfl
-  | set _ => intro l hl; simp [leaves] at hl; subst hl; rfl
-  | dict _ => intro l hl; simp [leaves] at hl; subst hl; rfl
-  | npInt _ => intro l hl; simp [leaves] at hl; subst hl; rfl
-  | agent _ _ => intro l hl; simp [leaves] at hl; subst hl; rfl
+/-- if the integer cast changed nothing, no leaf is a fractional float -/
+theorem unchanged_noFrac (v : PyVal) (h : castChanged v = false) :
+    ∀ l ∈ leaves v, fracFloatLeaf l = false := by
+  rw [castChanged_eq, List.any_eq_false] at h
+  intro l hl
+  simpa using h l hl
+
+/-- a fractional float denotes nothing in an integer box -/
+theorem frac_no_den (l : PyVal) (h : fracFloatLeaf l = true) : leafDen true l = none := by
+  have key : ∀ f : Flt, fracF f = true →
+      (match f with
+       | .fin q => if q.den = 1 ∧ inI64 q.num = true then some (Flt.fin q) else none
+       | _ => none) = none := by
+    intro f hf
+    cases f with
+    | fin q =>
+      have hq : q.den ≠ 1 := by simpa [fracF] using hf
+      simp [hq]
+    | nan => rfl
+    | pinf => rfl
+    | ninf => rfl
+  cases l with
+  | float f => simp only [leafDen, if_true]; exact key f (by simpa [fracFloatLeaf] using h)
+  | npFloat f => simp only [leafDen, if_true]; exact key f (by simpa [fracFloatLeaf] using h)
+  | none => simp [fracFloatLeaf] at h
+  | bool _ => simp [fracFloatLeaf] at h
+  | int _ => simp [fracFloatLeaf] at h
+  | str _ => simp [fracFloatLeaf] at h
+  | list _ => simp [fracFloatLeaf] at h
+  | tuple _ => simp [fracFloatLeaf] at h
+  | set _ => simp [fracFloatLeaf] at h
+  | dict _ => simp [fracFloatLeaf] at h
+  | ndarray _ _ _ => simp [fracFloatLeaf] at h
+  | npInt _ => simp [fracFloatLeaf] at h
+  | agent _ _ => simp [fracFloatLeaf] at h
 
 theorem viaAsarray_or (v : PyVal) :
     (∃ i, v = .int i) ∨ (∃ f, v = .float f) ∨ (∃ dt sh xs, v = .ndarray dt sh xs) ∨ ViaAsarray v := by
@@ -457,8 +526,8 @@ theorem viaAsarray_or (v : PyVal) :
     | exact Or.inr (Or.inr (Or.inl ⟨_, _, _, rfl⟩))
     | exact Or.inr (Or.inr (Or.inr ⟨(by intro _ h; cases h), (by intro _ h; cases h), (by intro _ _ _ h; cases h)⟩))
 
-/-- **`Box.contains` characterised** (outside the K2 exception) -/
-theorem boxContains_yes_iff (b : BoxSp) (v : PyVal) (h : k2Exc b v = false) :
+/-- **`Box.contains` characterised**, without exception -/
+theorem boxContains_yes_iff (b : BoxSp) (v : PyVal) :
     boxContains b v = .yes ↔ DocMember b v := by
   rcases viaAsarray_or v with ⟨i, rfl⟩ | ⟨f, rfl⟩ | ⟨dt, sh, xs, rfl⟩ | hv
   · -- Python int
@@ -534,31 +603,55 @@ theorem boxContains_yes_iff (b : BoxSp) (v : PyVal) (h : k2Exc b v = false) :
         · exact absurd h1 (hv.2.2 _ _ _)
         · exact h2
       · intro h; exact Or.inr (Or.inr (Or.inr ⟨hv, h⟩))
-    have hleaf : ∀ l ∈ leaves v, ((leafOk b.isInt l = true ∧ inBounds b (leafVal b.isInt l) = true) ↔
-        ∃ x, leafDen b.isInt l = some x ∧ inBounds b x = true) := fun l hl =>
-      leaf_den_iff b l (fun hI => k2_noFrac b v h hv hI l hl)
     rw [hD, boxContains_via b v hv]
-    constructor
-    · intro hy
-      cases ha : asArr b.isInt v with
-      | ok sh xs =>
-        rw [ha] at hy
-        simp only at hy
-        obtain ⟨_, hsh, hall⟩ := (boxTest_yes_iff b _ sh xs).mp hy
-        obtain ⟨hr, hok, hxs⟩ := (asArr_ok_iff b.isInt v sh xs).mp ha
-        subst hsh hxs
-        refine ⟨hr, fun l hl => (hleaf l hl).mp ⟨hok l hl, hall _ (List.mem_map_of_mem hl)⟩⟩
-      | raises => rw [ha] at hy; cases hy
-      | unmodelled => rw [ha] at hy; cases hy
-    · rintro ⟨hr, hall⟩
-      have ha : asArr b.isInt v = .ok b.shape ((leaves v).map (leafVal b.isInt)) :=
-        (asArr_ok_iff b.isInt v _ _).mpr ⟨hr, fun l hl => ((hleaf l hl).mpr (hall l hl)).1, rfl⟩
-      rw [ha]
-      simp only
-      refine (boxTest_yes_iff b _ _ _).mpr ⟨canCast_boxDT b, rfl, ?_⟩
-      intro x hx
-      obtain ⟨l, hl, rfl⟩ := List.mem_map.mp hx
-      exact ((hleaf l hl).mpr (hall l hl)).2
+    by_cases hch : (b.isInt && castChanged v) = true
+    · -- the integer cast changed a value: rejected, and indeed no member
+      simp only [Bool.and_eq_true] at hch
+      obtain ⟨l, hl, hfr⟩ : ∃ l ∈ leaves v, fracFloatLeaf l = true := by
+        have := hch.2
+        rw [castChanged_eq, List.any_eq_true] at this
+        exact this
+      constructor
+      · intro hy
+        cases ha : asArr b.isInt v with
+        | ok sh xs => rw [ha] at hy; simp [hch.1, hch.2] at hy
+        | raises => rw [ha] at hy; cases hy
+        | unmodelled => rw [ha] at hy; cases hy
+      · rintro ⟨_, hall⟩
+        obtain ⟨x, hx, _⟩ := hall l hl
+        rw [hch.1, frac_no_den l hfr] at hx
+        cases hx
+    · have hleaf : ∀ l ∈ leaves v, ((leafOk b.isInt l = true ∧ inBounds b (leafVal b.isInt l) = true) ↔
+          ∃ x, leafDen b.isInt l = some x ∧ inBounds b x = true) := fun l hl =>
+        leaf_den_iff b l (fun hI => by
+          have hc : castChanged v = false := by
+            cases hcc : castChanged v with
+            | false => rfl
+            | true => exact absurd (by rw [hI, hcc]; rfl) hch
+          exact unchanged_noFrac v hc l hl)
+      have hif : ∀ sh xs, (if (b.isInt && castChanged v) = true then BoxOut.no else boxTest b (boxDT b) sh xs) =
+          boxTest b (boxDT b) sh xs := fun sh xs => if_neg hch
+      constructor
+      · intro hy
+        cases ha : asArr b.isInt v with
+        | ok sh xs =>
+          rw [ha] at hy
+          simp only [hif] at hy
+          obtain ⟨_, hsh, hall⟩ := (boxTest_yes_iff b _ sh xs).mp hy
+          obtain ⟨hr, hok, hxs⟩ := (asArr_ok_iff b.isInt v sh xs).mp ha
+          subst hsh hxs
+          refine ⟨hr, fun l hl => (hleaf l hl).mp ⟨hok l hl, hall _ (List.mem_map_of_mem hl)⟩⟩
+        | raises => rw [ha] at hy; cases hy
+        | unmodelled => rw [ha] at hy; cases hy
+      · rintro ⟨hr, hall⟩
+        have ha : asArr b.isInt v = .ok b.shape ((leaves v).map (leafVal b.isInt)) :=
+          (asArr_ok_iff b.isInt v _ _).mpr ⟨hr, fun l hl => ((hleaf l hl).mpr (hall l hl)).1, rfl⟩
+        rw [ha]
+        simp only [hif]
+        refine (boxTest_yes_iff b _ _ _).mpr ⟨canCast_boxDT b, rfl, ?_⟩
+        intro x hx
+        obtain ⟨l, hl, rfl⟩ := List.mem_map.mp hx
+        exact ((hleaf l hl).mpr (hall l hl)).2
 
 end Cfg
 end Abmarl
